@@ -10,7 +10,7 @@
      one_geF   : forall x, sim_is_one x = true -> sim_leb F x = true
    and, ONLY for fast_match (ofast o = true):
      F_pos     : sim_leb F zero = false
-     comb0     : forall s t n x n', sim_leb F (combine (leaf_sim s t) 0 n) = true ->
+     comb0     : forall s t n x n', 0 < n -> sim_leb F (combine (leaf_sim s t) 0 n) = true ->
                    sim_is_one x = true -> 0 < n' -> sim_leb F (combine x 0 n') = true
    (with no child matched, the ratio sqrt(m^2/2) of a pair of nodes passes the
    threshold only if sqrt(1/2) does; true of floats since m <= 1.0 and the
@@ -403,7 +403,7 @@ Qed.
 (* ---- fast_match ---- *)
 Section Fast.
 Hypothesis F_pos : sim_leb F zero = false.
-Hypothesis comb0 : forall s t n x n', sim_leb F (combine (leaf_sim s t) 0 n) = true ->
+Hypothesis comb0 : forall s t n x n', 0 < n -> sim_leb F (combine (leaf_sim s t) 0 n) = true ->
   sim_is_one x = true -> 0 < n' -> sim_leb F (combine x 0 n') = true.
 
 Local Notation e0 := (fun _ : id => @None id).
@@ -413,12 +413,12 @@ Definition pass (x y : id) : bool := sim_leb F (nratio e0 x y).
    unique-attribute loop is silent *)
 Lemma pass_self_or a :
   a < fnext L ->
-  (exists s t n, sim_leb F (combine (leaf_sim s t) 0 n) = true) ->
+  (exists s t n, 0 < n /\ sim_leb F (combine (leaf_sim s t) 0 n) = true) ->
   pass a a = true.
 Proof.
-  intros Ha (s & t & n & Hst). unfold pass.
+  intros Ha (s & t & n & Hn & Hst). unfold pass.
   destruct (node_ratio_self_cases e0 a Ha) as [H|(_ & _ & Hne & m & Hm & E)]; [apply one_geF, H|].
-  rewrite E, count_matched_none. eapply comb0; [exact Hst|exact Hm|].
+  rewrite E, count_matched_none. eapply comb0; [exact Hn|exact Hst|exact Hm|].
   destruct (kidsof L a); [congruence|cbn; lia].
 Qed.
 
@@ -440,7 +440,7 @@ Proof.
   assert (Hcomb : (exists x, (x = a \/ x = b) /\ is_comment (ltag (labof L x)) = false /\
              uniq_decide sim zero one o (ouniq sim o) (ltag (labof L x)) (ltag (labof R x))
                (lattrs (labof L x)) (lattrs (labof R x)) false = None /\ kidsof L x <> []) ->
-            exists s t n, sim_leb F (combine (leaf_sim s t) 0 n) = true).
+            exists s t n, 0 < n /\ sim_leb F (combine (leaf_sim s t) 0 n) = true).
   { intros (x & Hx & Hcx & Hux & Hkx).
     unfold pass, node_ratio in Hp.
     destruct (is_comment (ltag (labof L a)) || is_comment (ltag (labof R b))) eqn:Hcc.
@@ -471,9 +471,9 @@ Proof.
     assert (Hkb : kidsof R b = kidsof L b) by apply (kids_same b Hb).
     destruct (kidsof L a) as [|ca ka] eqn:Eka; destruct (kidsof R b) as [|cb kb] eqn:Ekb.
     - exfalso. destruct Hx as [-> | ->]; [congruence|]. rewrite <- Hkb in Hkx. congruence.
-    - rewrite count_matched_none in Hp. eauto.
-    - rewrite count_matched_none in Hp. eauto.
-    - rewrite count_matched_none in Hp. eauto. }
+    - rewrite count_matched_none in Hp. do 3 eexists. split; [|exact Hp]. cbn [length]; lia.
+    - rewrite count_matched_none in Hp. do 3 eexists. split; [|exact Hp]. cbn [length]; lia.
+    - rewrite count_matched_none in Hp. do 3 eexists. split; [|exact Hp]. cbn [length]; lia. }
   split.
   - destruct (Hshape a Ha) as [H|(H1 & H2 & H3)]; [exact H|].
     apply pass_self_or; [exact Ha|]. apply Hcomb. exists a. auto.
@@ -546,7 +546,7 @@ End Fast.
 Theorem match_identity :
   (ofast sim o = true -> sim_leb F zero = false) ->
   (ofast sim o = true ->
-   forall s t n x n', sim_leb F (combine (leaf_sim s t) 0 n) = true ->
+   forall s t n x n', 0 < n -> sim_leb F (combine (leaf_sim s t) 0 n) = true ->
                       sim_is_one x = true -> 0 < n' -> sim_leb F (combine x 0 n') = true) ->
   exists m,
     match_nodes sim sim_ltb sim_leb sim_is_one zero one leaf_sim combine o L R root root = Some m /\
